@@ -36,7 +36,7 @@ if [ "${2:-}" != "--no-fixes" ]; then
     echo "== repair $f"
     git -C /repo apply --3way $f || { echo "FIX APPLY FAILED $f"; git -C /repo reset -q --hard HEAD; continue; }
     b=$(python3 tools/baseline.py /repo | head -1); echo "   baseline: $b"
-    case "$b" in *"missing 0"*) git -C /repo add -A fastparquet; git -C /repo commit -q -F $n.msg; echo "   committed $(git -C /repo log --oneline | head -1)";;
+    case "$b" in *"missing 0"*) git -C /repo add -u fastparquet; git -C /repo commit -q -F $n.msg; echo "   committed $(git -C /repo log --oneline | head -1)";;
       *) echo "   BASELINE BROKEN - reverted"; git -C /repo reset -q --hard HEAD;; esac
   done
 fi
